@@ -65,11 +65,13 @@ func ReadChunk(data []byte) (Chunk, int, error) {
 	if err != nil {
 		return Chunk{}, 0, err
 	}
-	payloadEnd := container.ChunkHeaderSize + int(size)
-	if payloadEnd > len(data) {
+	// Compare in 64 bits: on 32-bit platforms int(size) is negative for
+	// declared sizes of 2 GiB and more.
+	if uint64(size) > uint64(len(data)-container.ChunkHeaderSize) {
 		return Chunk{}, 0, fmt.Errorf("mux: chunk %s payload truncated: need %d bytes, have %d",
-			fourCCString(id), payloadEnd, len(data))
+			fourCCString(id), uint64(container.ChunkHeaderSize)+uint64(size), len(data))
 	}
+	payloadEnd := container.ChunkHeaderSize + int(size)
 	c := Chunk{
 		ID:   id,
 		Size: size,
